@@ -52,10 +52,12 @@ impl<R: Read> Iterator for ChunkedChars<R> {
         // No internal buffering: rely on the outer BufReader and decoder.
         let mut buf = [0u8; 4];
         // Read first byte
-        if let Err(e) = self.reader.read_exact(&mut buf[..1]) {
-            match e.kind() {
-                io::ErrorKind::UnexpectedEof => return None, // true EOF
-                _ => {
+        loop {
+            match self.reader.read(&mut buf[..1]) {
+                Ok(0) => return None, // true EOF
+                Ok(_) => break,
+                Err(e) if e.kind() == io::ErrorKind::Interrupted => continue,
+                Err(e) => {
                     self.err.replace(Some(e));
                     return None;
                 }
